@@ -260,6 +260,7 @@ func TestVerifC15ServerTLS(t *testing.T) {
 	validator.EXPECT().Validate(gomock.Any()).AnyTimes().Return(nil)
 	vOffloading(t, ops, impl, validator)
 	vOffloadingShared(t, ops, impl, validator)
+	vInbound(t, ops, impl)
 	serverCfg, err := newServerTLSConfig(Config{serverCert: &serverCert, trustStore: pool, pkiValidator: validator})
 	if err != nil {
 		t.Fatal(err)
